@@ -1,23 +1,22 @@
 import LexgenModel.Model.Codegen
+import LexgenModel.Spec.Scan
 /-!
 # Index arithmetic of the state renumbering done by code generation
 
-States that are inlined at their only transition site (`isInlined`: not initial, exactly one
-predecessor, reached from it through exactly one arm) get no `match self.0.__state` arm; the
-remaining states are renumbered consecutively, and the arm with the largest number gets the
-pattern `_`.  This file proves that the number stored in `__state` for a state that has an arm
-selects exactly the arm holding that state's code.
+States that are inlined at their transition sites get no `match self.0.__state` arm; the remaining
+states are renumbered consecutively, and the arm with the largest number gets the pattern `_`.
+This file proves that the number stored in `__state` for a state that has an arm selects exactly
+the arm holding that state's code — for ANY set `inl` of inlined states that is strictly ascending,
+within range and free of initial states (`InlOK`). The macro's current policy (`isInlined`:
+not initial, exactly one predecessor, reached from it through exactly one arm) is one such set
+(`inlOK_inlinedStates`).
 -/
 namespace Lexgen
 
 /-- the state has its own `match` arm (it is not inlined at its transition site) -/
-def hasArm (d : DFA Trans) (s : Nat) : Bool := !isInlined d s
+def hasArm (inl : List Nat) (s : Nat) : Bool := !inl.contains s
 
-/-- initial states are never inlined (now true by definition of `isInlined`) -/
-def InitialNotInlined (d : DFA Trans) : Prop :=
-  ∀ i, i < d.length → (d.st i).initial = true → isInlined d i = false
-
-/-- an initial state is not inlined -/
+/-- an initial state is not inlined under the macro's current policy -/
 theorem isInlined_of_initial (d : DFA Trans) (i : Nat) (h : (d.st i).initial = true) :
     isInlined d i = false := by
   unfold isInlined
@@ -25,22 +24,71 @@ theorem isInlined_of_initial (d : DFA Trans) (i : Nat) (h : (d.st i).initial = t
   rfl
 
 /-- a state that is not inlined at its transition site has its own arm -/
-theorem hasArm_of_not_inlinedAt (d : DFA Trans) (t : Nat) (h : inlinedAt d t = false) :
-    hasArm d t = true := by
+theorem hasArm_of_not_inlinedAt (inl : List Nat) (t : Nat) (h : inlinedAt inl t = false) :
+    hasArm inl t = true := by
   unfold inlinedAt at h
   unfold hasArm
   rw [h]
   rfl
 
-theorem initialNotInlined (d : DFA Trans) : InitialNotInlined d :=
-  fun i _ h => isInlined_of_initial d i h
-
 /-- an initial state has its own arm -/
-theorem hasArm_of_initial (d : DFA Trans) (i : Nat) (h : (d.st i).initial = true) :
-    hasArm d i = true := by
+theorem hasArm_of_initial (d : DFA Trans) (inl : List Nat) (hI : InlOK d inl) (i : Nat)
+    (h : (d.st i).initial = true) : hasArm inl i = true := by
   unfold hasArm
-  rw [isInlined_of_initial d i h]
-  rfl
+  cases hc : inl.contains i with
+  | false => rfl
+  | true =>
+    have hm : i ∈ inl := by simpa using hc
+    have := (hI.2 i hm).2
+    rw [h] at this
+    cases this
+
+/-! ## The macro's current policy is one admissible choice -/
+
+theorem pairwise_lt_range (n : Nat) : (List.range n).Pairwise (· < ·) := by
+  induction n with
+  | zero => simp
+  | succ k ih =>
+    rw [List.range_succ, List.pairwise_append]
+    refine ⟨ih, by simp, ?_⟩
+    intro a ha b hb
+    have ha' := List.mem_range.1 ha
+    have hb' : b = k := by simpa using hb
+    omega
+
+theorem inlOK_inlinedStates (d : DFA Trans) : InlOK d (inlinedStates d) := by
+  refine ⟨(pairwise_lt_range d.length).filter _, ?_⟩
+  intro i hi
+  have hi' := List.mem_filter.1 hi
+  refine ⟨List.mem_range.1 hi'.1, ?_⟩
+  cases hini : (d.st i).initial with
+  | false => rfl
+  | true =>
+    have := isInlined_of_initial d i hini
+    rw [this] at hi'
+    exact absurd hi'.2 (by simp)
+
+/-! ## Soundness of the boolean checker `inlOK` -/
+
+theorem ascending_pairwise : ∀ (l : List Nat), ascending l = true → l.Pairwise (· < ·)
+  | [], _ => List.Pairwise.nil
+  | [a], _ => by simp
+  | a :: b :: rest, h => by
+    simp only [ascending, Bool.and_eq_true, decide_eq_true_eq] at h
+    have ih := ascending_pairwise (b :: rest) h.2
+    refine List.Pairwise.cons ?_ ih
+    intro x hx
+    rcases List.mem_cons.1 hx with rfl | hx'
+    · exact h.1
+    · exact Nat.lt_trans h.1 ((List.pairwise_cons.1 ih).1 x hx')
+
+theorem inlOK_sound (d : DFA Trans) (inl : List Nat) (h : inlOK d inl = true) : InlOK d inl := by
+  simp only [inlOK, Bool.and_eq_true] at h
+  refine ⟨ascending_pairwise inl h.1, ?_⟩
+  intro i hi
+  have := (List.all_eq_true.1 h.2) i hi
+  simp only [Bool.and_eq_true, decide_eq_true_eq, Bool.not_eq_true'] at this
+  exact this
 
 namespace Dispatch
 
@@ -156,86 +204,139 @@ theorem dispatch_append_some (l1 l2 : List (Pat × Nat)) (n s : Nat)
       simp only [List.cons_append, dispatch] at h ⊢
       exact h
 
+/-! ## Strictly ascending lists are determined by their members -/
+
+theorem eq_of_pairwise_lt_of_mem_iff : ∀ (l1 l2 : List Nat), l1.Pairwise (· < ·) → l2.Pairwise (· < ·) →
+    (∀ x, x ∈ l1 ↔ x ∈ l2) → l1 = l2
+  | [], l2, _, _, h => by
+    cases l2 with
+    | nil => rfl
+    | cons b t => exact absurd ((h b).2 List.mem_cons_self) (by simp)
+  | a :: t1, [], _, _, h => absurd ((h a).1 List.mem_cons_self) (by simp)
+  | a :: t1, b :: t2, h1, h2, h => by
+    have h1' := List.pairwise_cons.1 h1
+    have h2' := List.pairwise_cons.1 h2
+    have hab : a = b := by
+      rcases List.mem_cons.1 ((h a).1 List.mem_cons_self) with hab | ha
+      · exact hab
+      · rcases List.mem_cons.1 ((h b).2 List.mem_cons_self) with hba | hb
+        · exact hba.symm
+        · have := h1'.1 b hb
+          have := h2'.1 a ha
+          omega
+    subst hab
+    have ht : t1 = t2 := by
+      apply eq_of_pairwise_lt_of_mem_iff t1 t2 h1'.2 h2'.2
+      intro x
+      constructor
+      · intro hx
+        have hlt := h1'.1 x hx
+        rcases List.mem_cons.1 ((h x).1 (List.mem_cons_of_mem _ hx)) with hxa | hx2
+        · omega
+        · exact hx2
+      · intro hx
+        have hlt := h2'.1 x hx
+        rcases List.mem_cons.1 ((h x).2 (List.mem_cons_of_mem _ hx)) with hxa | hx1
+        · omega
+        · exact hx1
+    rw [ht]
+
+/-- a strictly ascending list of indices below `L` is the range `0..L` filtered by membership -/
+theorem eq_filter_range (inl : List Nat) (L : Nat) (hp : inl.Pairwise (· < ·)) (hlt : ∀ i ∈ inl, i < L) :
+    inl = (List.range L).filter (fun i => inl.contains i) := by
+  apply eq_of_pairwise_lt_of_mem_iff _ _ hp ((pairwise_lt_range L).filter _)
+  intro x
+  rw [List.mem_filter, List.mem_range]
+  constructor
+  · intro hx
+    exact ⟨hlt x hx, by simpa using hx⟩
+  · intro hx
+    simpa using hx.2
+
 /-! ## The arms of a DFA -/
 
 /-- the arm generated for state `i` -/
-def armOf (d : DFA Trans) (i : Nat) : Pat × Nat :=
-  (if renumber (inlinedStates d) i == d.length - (inlinedStates d).length - 1 then Pat.wild
-   else Pat.num (renumber (inlinedStates d) i), i)
+def armOf (d : DFA Trans) (inl : List Nat) (i : Nat) : Pat × Nat :=
+  (if renumber inl i == d.length - inl.length - 1 then Pat.wild
+   else Pat.num (renumber inl i), i)
 
 /-- the arms of the states below `n` -/
-def armsUpTo (d : DFA Trans) (n : Nat) : List (Pat × Nat) :=
-  ((List.range n).filter (hasArm d)).map (armOf d)
+def armsUpTo (d : DFA Trans) (inl : List Nat) (n : Nat) : List (Pat × Nat) :=
+  ((List.range n).filter (hasArm inl)).map (armOf d inl)
 
 theorem inlinedStates_eq (d : DFA Trans) :
     inlinedStates d = (List.range d.length).filter (isInlined d) := rfl
 
-theorem stateArms_eq (d : DFA Trans) : stateArms d = armsUpTo d d.length := rfl
+theorem stateArms_eq (d : DFA Trans) (inl : List Nat) : stateArms d inl = armsUpTo d inl d.length := rfl
 
-theorem isInlined_compl (d : DFA Trans) (i : Nat) : isInlined d i = !hasArm d i := by
+theorem contains_compl (inl : List Nat) (i : Nat) : inl.contains i = !hasArm inl i := by
   unfold hasArm
-  cases isInlined d i <;> rfl
+  cases inl.contains i <;> rfl
 
 theorem mem_inlinedStates (d : DFA Trans) (i : Nat) :
     i ∈ inlinedStates d ↔ i < d.length ∧ isInlined d i = true := by
   rw [inlinedStates_eq, List.mem_filter, List.mem_range]
 
 /-- the inlined states are exactly the states without an arm -/
-theorem mem_inlinedStates_iff (d : DFA Trans) (i : Nat)
-    (hi : i < d.length) : i ∈ inlinedStates d ↔ hasArm d i = false := by
-  rw [mem_inlinedStates, isInlined_compl]
-  cases hasArm d i <;> simp [hi]
+theorem mem_inl_iff (inl : List Nat) (i : Nat) : i ∈ inl ↔ hasArm inl i = false := by
+  unfold hasArm
+  simp
 
-theorem renumber_eq (d : DFA Trans) (s : Nat) (hs : s ≤ d.length) :
-    renumber (inlinedStates d) s = cnt (hasArm d) s :=
-  renumber_eq_cnt (isInlined d) (hasArm d) d.length (fun i _ => isInlined_compl d i) s hs
+theorem renumber_eq (d : DFA Trans) (inl : List Nat) (hI : InlOK d inl) (s : Nat) (hs : s ≤ d.length) :
+    renumber inl s = cnt (hasArm inl) s := by
+  have h := renumber_eq_cnt (fun i => inl.contains i) (hasArm inl) d.length
+    (fun i _ => contains_compl inl i) s hs
+  rw [← eq_filter_range inl d.length hI.1 (fun i hi => (hI.2 i hi).1)] at h
+  exact h
 
 /-- the number of arms -/
-theorem arms_count (d : DFA Trans) :
-    d.length - (inlinedStates d).length = cnt (hasArm d) d.length := by
-  have hc := cnt_compl (isInlined d) (hasArm d) d.length (fun i _ => isInlined_compl d i) d.length
-    (Nat.le_refl _)
-  have : (inlinedStates d).length = cnt (isInlined d) d.length := rfl
+theorem arms_count (d : DFA Trans) (inl : List Nat) (hI : InlOK d inl) :
+    d.length - inl.length = cnt (hasArm inl) d.length := by
+  have hc := cnt_compl (fun i => inl.contains i) (hasArm inl) d.length
+    (fun i _ => contains_compl inl i) d.length (Nat.le_refl _)
+  have : inl.length = cnt (fun i => inl.contains i) d.length := by
+    unfold cnt
+    rw [← eq_filter_range inl d.length hI.1 (fun i hi => (hI.2 i hi).1)]
   omega
 
 /-- arms of smaller states carry a different number -/
-theorem arm_before (d : DFA Trans) (i s : Nat) (his : i < s)
-    (hs : s < d.length) (ai : hasArm d i = true) (as : hasArm d s = true) :
-    ∃ k, (armOf d i).1 = Pat.num k ∧ k ≠ cnt (hasArm d) s := by
-  have h1 := cnt_lt_of_true (hasArm d) his ai
-  have h2 := cnt_lt_of_true (hasArm d) hs as
-  have hr := renumber_eq d i (by omega)
-  have hc := arms_count d
-  refine ⟨cnt (hasArm d) i, ?_, by omega⟩
-  have hne : ¬ (cnt (hasArm d) i = d.length - (inlinedStates d).length - 1) := by
+theorem arm_before (d : DFA Trans) (inl : List Nat) (hI : InlOK d inl) (i s : Nat) (his : i < s)
+    (hs : s < d.length) (ai : hasArm inl i = true) (as : hasArm inl s = true) :
+    ∃ k, (armOf d inl i).1 = Pat.num k ∧ k ≠ cnt (hasArm inl) s := by
+  have h1 := cnt_lt_of_true (hasArm inl) his ai
+  have h2 := cnt_lt_of_true (hasArm inl) hs as
+  have hr := renumber_eq d inl hI i (by omega)
+  have hc := arms_count d inl hI
+  refine ⟨cnt (hasArm inl) i, ?_, by omega⟩
+  have hne : ¬ (cnt (hasArm inl) i = d.length - inl.length - 1) := by
     omega
   simp only [armOf, beq_iff_eq, hr, if_neg hne]
 
 /-- the arm of `s` matches its number -/
-theorem arm_at (d : DFA Trans) (s : Nat) (hs : s < d.length) :
-    dispatch [armOf d s] (cnt (hasArm d) s) = some s := by
-  have hr := renumber_eq d s (by omega)
+theorem arm_at (d : DFA Trans) (inl : List Nat) (hI : InlOK d inl) (s : Nat) (hs : s < d.length) :
+    dispatch [armOf d inl s] (cnt (hasArm inl) s) = some s := by
+  have hr := renumber_eq d inl hI s (by omega)
   unfold armOf
   rw [hr]
-  by_cases h : cnt (hasArm d) s = d.length - (inlinedStates d).length - 1
+  by_cases h : cnt (hasArm inl) s = d.length - inl.length - 1
   · simp only [beq_iff_eq, if_pos h, dispatch]
   · simp only [beq_iff_eq, if_neg h, dispatch, if_true]
 
-theorem dispatch_armsUpTo_succ (d : DFA Trans) (s : Nat)
-    (hs : s < d.length) (as : hasArm d s = true) :
-    dispatch (armsUpTo d (s + 1)) (cnt (hasArm d) s) = some s := by
+theorem dispatch_armsUpTo_succ (d : DFA Trans) (inl : List Nat) (hI : InlOK d inl) (s : Nat)
+    (hs : s < d.length) (as : hasArm inl s = true) :
+    dispatch (armsUpTo d inl (s + 1)) (cnt (hasArm inl) s) = some s := by
   unfold armsUpTo
   rw [List.range_succ, List.filter_append, List.map_append]
-  have hf : List.filter (hasArm d) [s] = [s] := by simp [as]
+  have hf : List.filter (hasArm inl) [s] = [s] := by simp [as]
   rw [hf, List.map_cons, List.map_nil, dispatch_append_skip]
-  · exact arm_at d s hs
+  · exact arm_at d inl hI s hs
   · intro x hx
     obtain ⟨i, hi, rfl⟩ := List.mem_map.1 hx
     have hi' := List.mem_filter.1 hi
-    exact arm_before d i s (List.mem_range.1 hi'.1) hs hi'.2 as
+    exact arm_before d inl hI i s (List.mem_range.1 hi'.1) hs hi'.2 as
 
-theorem armsUpTo_add (d : DFA Trans) (m k : Nat) :
-    ∃ l, armsUpTo d (m + k) = armsUpTo d m ++ l := by
+theorem armsUpTo_add (d : DFA Trans) (inl : List Nat) (m k : Nat) :
+    ∃ l, armsUpTo d inl (m + k) = armsUpTo d inl m ++ l := by
   unfold armsUpTo
   rw [List.range_add, List.filter_append, List.map_append]
   exact ⟨_, rfl⟩
@@ -246,39 +347,39 @@ open Dispatch
 
 set_option linter.unusedVariables false in
 /-- renumbering is strictly monotone on states that have an arm -/
-theorem renumber_strictMono (d : DFA Trans) (hI : InitialNotInlined d) (s t : Nat)
-    (hs : s < d.length) (ht : t < d.length) (hst : s < t) (as : hasArm d s = true) (at_ : hasArm d t = true) :
-    renumber (inlinedStates d) s < renumber (inlinedStates d) t := by
-  rw [renumber_eq d s (by omega), renumber_eq d t (by omega)]
-  exact cnt_lt_of_true (hasArm d) hst as
+theorem renumber_strictMono (d : DFA Trans) (inl : List Nat) (hI : InlOK d inl) (s t : Nat)
+    (hs : s < d.length) (ht : t < d.length) (hst : s < t) (as : hasArm inl s = true) (at_ : hasArm inl t = true) :
+    renumber inl s < renumber inl t := by
+  rw [renumber_eq d inl hI s (by omega), renumber_eq d inl hI t (by omega)]
+  exact cnt_lt_of_true (hasArm inl) hst as
 
-set_option linter.unusedVariables false in
 /-- every renumbered index is below the number of arms -/
-theorem renumber_lt_arms (d : DFA Trans) (hI : InitialNotInlined d) (s : Nat) (hs : s < d.length) (as : hasArm d s = true) :
-    renumber (inlinedStates d) s < d.length - (inlinedStates d).length := by
-  rw [renumber_eq d s (by omega), arms_count d]
-  exact cnt_lt_of_true (hasArm d) hs as
+theorem renumber_lt_arms (d : DFA Trans) (inl : List Nat) (hI : InlOK d inl) (s : Nat) (hs : s < d.length)
+    (as : hasArm inl s = true) :
+    renumber inl s < d.length - inl.length := by
+  rw [renumber_eq d inl hI s (by omega), arms_count d inl hI]
+  exact cnt_lt_of_true (hasArm inl) hs as
 
-set_option linter.unusedVariables false in
 /-- The number stored in `__state` for a state with an arm selects exactly that state's arm
-(including the `_` arm of the largest number). -/
-theorem dispatch_correct (d : DFA Trans) (hI : InitialNotInlined d) (s : Nat) (hs : s < d.length)
-    (as : hasArm d s = true) :
-    dispatch (stateArms d) (renumber (inlinedStates d) s) = some s := by
-  rw [renumber_eq d s (by omega), stateArms_eq]
+(including the `_` arm of the largest number), for any admissible set of inlined states. -/
+theorem dispatch_correct (d : DFA Trans) (inl : List Nat) (hI : InlOK d inl) (s : Nat) (hs : s < d.length)
+    (as : hasArm inl s = true) :
+    dispatch (stateArms d inl) (renumber inl s) = some s := by
+  rw [renumber_eq d inl hI s (by omega), stateArms_eq]
   have hL : d.length = (s + 1) + (d.length - (s + 1)) := by omega
-  obtain ⟨l, hl⟩ := armsUpTo_add d (s + 1) (d.length - (s + 1))
+  obtain ⟨l, hl⟩ := armsUpTo_add d inl (s + 1) (d.length - (s + 1))
   rw [hL, hl]
-  exact dispatch_append_some _ _ _ _ (dispatch_armsUpTo_succ d s hs as)
+  exact dispatch_append_some _ _ _ _ (dispatch_armsUpTo_succ d inl hI s hs as)
 
 /-- `switch` stores the number whose arm is the entry state of the named rule set. -/
-theorem switch_correct (d : DFA Trans) (hI : InitialNotInlined d) (entries : List (String × Nat)) (name : String) (e : Nat)
+theorem switch_correct (d : DFA Trans) (inl : List Nat) (hI : InlOK d inl) (entries : List (String × Nat))
+    (name : String) (e : Nat)
     (he : (name, e) ∈ entries) (hlt : e < d.length) (hini : (d.st e).initial = true) :
-    ∃ n, (name, n) ∈ switchTable d entries ∧ dispatch (stateArms d) n = some e := by
-  refine ⟨renumber (inlinedStates d) e, ?_, ?_⟩
+    ∃ n, (name, n) ∈ switchTable inl entries ∧ dispatch (stateArms d inl) n = some e := by
+  refine ⟨renumber inl e, ?_, ?_⟩
   · unfold switchTable
     exact List.mem_map.2 ⟨(name, e), he, rfl⟩
-  · exact dispatch_correct d hI e hlt (hasArm_of_initial d e hini)
+  · exact dispatch_correct d inl hI e hlt (hasArm_of_initial d inl hI e hini)
 
 /-! ## Non-vacuity -/
 
@@ -290,7 +391,17 @@ def exampleDfa : DFA Trans :=
     { preds := [0, 1] },
     { initial := true } ]
 
-example : InitialNotInlined exampleDfa := initialNotInlined exampleDfa
+example : InlOK exampleDfa (inlinedStates exampleDfa) := inlOK_inlinedStates exampleDfa
+
+/-- a different policy ("inline only leaf states": state 2 has no successors) is just as good -/
+example : inlOK exampleDfa [2] = true := by
+  decide
+
+example : stateArms exampleDfa [2] = [(Pat.num 0, 0), (Pat.num 1, 1), (Pat.wild, 3)] := by
+  decide
+
+example : dispatch (stateArms exampleDfa [2]) (renumber [2] 3) = some 3 :=
+  dispatch_correct exampleDfa [2] (inlOK_sound _ _ (by decide)) 3 (by decide) (by decide)
 
 example : inlinedStates exampleDfa = [1] := by
   decide
@@ -304,13 +415,13 @@ def exampleDfaTwoSites : DFA Trans :=
 example : inlinedStates exampleDfaTwoSites = [] := by
   decide
 
-example : stateArms exampleDfaTwoSites = [(Pat.num 0, 0), (Pat.wild, 1)] := by
+example : stateArms exampleDfaTwoSites (inlinedStates exampleDfaTwoSites) = [(Pat.num 0, 0), (Pat.wild, 1)] := by
   decide
 
-example : dispatch (stateArms exampleDfa) (renumber (inlinedStates exampleDfa) 2) = some 2 := by
+example : dispatch (stateArms exampleDfa (inlinedStates exampleDfa)) (renumber (inlinedStates exampleDfa) 2) = some 2 := by
   decide
 
-example : stateArms exampleDfa = [(Pat.num 0, 0), (Pat.num 1, 2), (Pat.wild, 3)] := by
+example : stateArms exampleDfa (inlinedStates exampleDfa) = [(Pat.num 0, 0), (Pat.num 1, 2), (Pat.wild, 3)] := by
   decide
 
 end Lexgen
